@@ -50,6 +50,10 @@ class GotranCCodePrinter(C99CodePrinter):
     def _print_im(self, expr):
         return self._print(sympy.S.Zero)
 
+    def _print_arg(self, expr):
+        # The argument (phase) of a real number is 0 or pi
+        return f"((({self._print(expr.args[0])}) < 0) ? M_PI : 0.0)"
+
     def __init__(self, *args, **kwargs):
         super().__init__(*args, **kwargs)
         self._settings["contract"] = False
